@@ -242,8 +242,14 @@ def _order(spec, ctx, model, states, t0, sigdata):
         r = d1 / d2
         det["state_ratio"] = r
         ctx.rec["extra"]["order_state_ratio_list"] = [round(r, 3)]
+        if r > 5.5:
+            # shrinking FASTER than four is not a loss of order: the coarsest step is not yet in the asymptotic regime (a stiff
+            # spring, omega*dt ~ 1; seen on the unchanged tree with ratios 10.9 and 6.6 on successive halvings while the energy
+            # ratio, which is what the property names, was 4.03). Counted, not judged.
+            ctx.count("order_state_shrinks_faster_than_four")
+            r = 4.0
         if not (3.0 <= r <= 5.5):
-            ctx.violation("Rattle.solve/order", "state differences between successive step halvings do not shrink by about four", det)
+            ctx.violation("Rattle.solve/order", "state differences between successive step halvings shrink by clearly less than four", det)
     else:
         ctx.count("order_state_at_floor")
     if not nontrivial:
